@@ -41,6 +41,19 @@ def gen(rng, tier):
             files["app/Main%d.java" % k] = ("package app;\n\npublic class Main%d {\n    private %s h;\n    public void start(%s p) {\n        h.run();\n        p.run();\n"
                                             "        %s q = new %s();\n        q.run();\n    }\n}\n") % (k, name, name, name, name)
             sh.append({"op": "full", "files": files, "units": [], "truth": [], "identKeys": [], "_family": m.FAMILY, "_src": "C01"})
+        for k in range(6):
+            # overloads that make different calls, through the commands (`coca analysis`, then `coca count` on its deps.json): the
+            # functions of a type come out of a map in any order, the reference counts must not depend on it
+            svc, meth = rng.choice(["OrderService", "Checkout", "Importer"]), rng.choice(["submit", "run", "apply"])
+            files = {
+                "com/shop/Repo.java": "package com.shop;\n\npublic class Repo {\n    public void save(int k) { }\n    public void load(int k) { }\n}\n",
+                "com/shop/Notifier.java": "package com.shop;\n\npublic class Notifier {\n    public void send(int k) { }\n}\n",
+                "com/shop/%s.java" % svc: ("package com.shop;\n\npublic class %s {\n    private Repo repo;\n    private Notifier notifier;\n\n"
+                                           "    public void %s(int k) {\n        repo.save(k);\n    }\n\n"
+                                           "    public void %s(int k, boolean loud) {\n        repo.save(k);\n        repo.load(k);\n        notifier.send(k);\n    }\n\n"
+                                           "    public void %s(int k, int j, boolean loud) {\n        notifier.send(k);\n        notifier.send(j);\n    }\n}\n") % (svc, meth, meth, meth),
+            }
+            sh.append({"op": "full", "cli": True, "files": files, "units": [], "truth": [], "identKeys": [], "_family": m.FAMILY, "_src": "C01"})
         shards.append(sh)
     return shards
 
